@@ -119,7 +119,8 @@ def mutants(ids):
                 meta = os.path.join(os.path.dirname(patch), "meta.json")
                 try:
                     with open(meta) as f:
-                        if json.load(f).get("property") != pid:
+                        meta_d = json.load(f)
+                        if pid not in (meta_d.get("run_with_checks") or [meta_d.get("property")]):
                             continue
                 except Exception:
                     continue
